@@ -62,6 +62,7 @@ def r1_census(facts, rep, fx):
     rep.count("hand-written functions reachable from the entry points", len(hw))
     rep.floor("C11-R1", "reachable hand-written functions", len(hw), 60)
     deps = {}
+    pow_own = cg.exclusive("eval::pow")
 
     def dep(name):
         if name in deps:
@@ -129,7 +130,7 @@ def r1_census(facts, rep, fx):
                 rep.ob("C11-R1", "recip:%s" % p, p == "rational::Rational::recip", "BigRational::recip is called in %s" % p, site, nontrivial=False)
             elif kind == "recip":
                 okk, bad = dep("zero-guard")
-                rep.ob("C11-R1", "recip:%s" % p, p == "eval::pow" and okk, "recip() in %s is reached only with a base tested non-zero (C01-R4)%s" % (p, "" if okk else ": " + bad), site)
+                rep.ob("C11-R1", "recip:%s" % p, p in pow_own and okk, "recip() in %s is reached only with a base tested non-zero (C01-R4)%s" % (p, "" if okk else ": " + bad), site)
             elif kind.startswith("div:"):
                 _, ty, m = kind.split(":")
                 if p.startswith("<") and "rational::Rational as std::ops::" in p:
